@@ -260,6 +260,114 @@ func grpcstatusR6(t *tr, b *strings.Builder) {
 		tag, code = `""`, "0"
 	}
 	fmt.Fprintf(b, "/-- `netsample.DiscardedShootTag`, `netsample.DiscardedShootCodeError` -/\ndef discardedTag : String := %s\ndef discardedNet : Nat := %s\n\n", tag, code)
+	grpcstatusR6Waiter(t, b)
+}
+
+var grpcstatusR6Units = map[string]uint64{"Nanosecond": 1, "Microsecond": 1000, "Millisecond": 1000000, "Second": 1000000000,
+	"Minute": 60000000000, "Hour": 3600000000000}
+
+// grpcstatusR6Duration: `<int> * time.<Unit>` / `time.<Unit> * <int>` / `time.<Unit>` in nanoseconds.
+func grpcstatusR6Duration(e ast.Expr) (uint64, bool) {
+	switch v := e.(type) {
+	case *ast.ParenExpr:
+		return grpcstatusR6Duration(v.X)
+	case *ast.SelectorExpr:
+		if x, ok := v.X.(*ast.Ident); ok && x.Name == "time" {
+			u, ok := grpcstatusR6Units[v.Sel.Name]
+			return u, ok
+		}
+	case *ast.BasicLit:
+		if v.Kind == token.INT {
+			n, err := strconv.ParseUint(v.Value, 0, 63)
+			return n, err == nil
+		}
+	case *ast.BinaryExpr:
+		if v.Op == token.MUL {
+			a, ok1 := grpcstatusR6Duration(v.X)
+			c, ok2 := grpcstatusR6Duration(v.Y)
+			return a * c, ok1 && ok2
+		}
+	}
+	return 0, false
+}
+
+// grpcstatusR6Waiter: `coreutil.MaxOverdueDuration` in nanoseconds, and what `(*Waiter).IsSlowDown` returns — one fact per
+// `return`: `done:<expr>` when it stands in a `case <-….Done():` clause of a select, `live:<expr>` otherwise (receiver
+// printed as `recv`), as a sorted set.
+func grpcstatusR6Waiter(t *tr, b *strings.Builder) {
+	nanos, found := uint64(0), false
+	var facts []string
+	for _, f := range grpcstatusR6ParseDir(t, "core/coreutil") {
+		for _, d := range f.Decls {
+			switch v := d.(type) {
+			case *ast.GenDecl:
+				if v.Tok != token.CONST {
+					continue
+				}
+				for _, sp := range v.Specs {
+					vs := sp.(*ast.ValueSpec)
+					for i, nm := range vs.Names {
+						if nm.Name == "MaxOverdueDuration" && i < len(vs.Values) {
+							nanos, found = grpcstatusR6Duration(vs.Values[i])
+						}
+					}
+				}
+			case *ast.FuncDecl:
+				if v.Name.Name != "IsSlowDown" || v.Recv == nil || v.Body == nil || len(v.Recv.List) != 1 {
+					continue
+				}
+				recv := ""
+				if len(v.Recv.List[0].Names) == 1 {
+					recv = v.Recv.List[0].Names[0].Name
+				}
+				var walk func(n ast.Node, done bool)
+				walk = func(n ast.Node, done bool) {
+					ast.Inspect(n, func(m ast.Node) bool {
+						switch w := m.(type) {
+						case *ast.CommClause:
+							isDone := false
+							if w.Comm != nil {
+								ast.Inspect(w.Comm, func(k ast.Node) bool {
+									if id, ok := k.(*ast.Ident); ok && id.Name == "Done" {
+										isDone = true
+									}
+									return true
+								})
+							}
+							for _, st := range w.Body {
+								walk(st, isDone)
+							}
+							return false
+						case *ast.ReturnStmt:
+							for _, r := range w.Results {
+								txt := grpcstatusR6Expr(r)
+								if recv != "" {
+									txt = regexp.MustCompile(`\b`+regexp.QuoteMeta(recv)+`\.`).ReplaceAllString(txt, "recv.")
+								}
+								if done {
+									facts = append(facts, "done:"+txt)
+								} else {
+									facts = append(facts, "live:"+txt)
+								}
+							}
+						}
+						return true
+					})
+				}
+				walk(v.Body, false)
+			}
+		}
+	}
+	if !found {
+		t.errs = append(t.errs, "coreutil.MaxOverdueDuration is not `<int> * time.<Unit>`")
+	}
+	sort.Strings(facts)
+	var q []string
+	for _, f := range facts {
+		q = append(q, fmt.Sprintf("%q", f))
+	}
+	fmt.Fprintf(b, "/-- `coreutil.MaxOverdueDuration` in nanoseconds -/\ndef maxOverdueNanos : Nat := %d\n\n", nanos)
+	fmt.Fprintf(b, "/-- `(*Waiter).IsSlowDown`: what it returns once the context is done (`done:`) and otherwise (`live:`), as a sorted set -/\ndef isSlowDownFacts : List String := [%s]\n\n", strings.Join(q, ", "))
 }
 
 func grpcstatusR6Expr(e ast.Expr) string {
